@@ -53,6 +53,8 @@ class Models(object):
 
 def models(index):
     if not hasattr(index, '_models'):
+        from engine.layout import register_fragment_fields
+        register_fragment_fields(index)
         index._models = Models(index)
     return index._models
 
